@@ -266,4 +266,15 @@ example : NOpsOk [.complete 1700000000900 2 400, .block 1700000000600 1, .pass 1
 example : opsSum 500 [.complete 1700000000900 2 400, .block 1700000000600 1, .pass 1700000000500 2]
     (1700000000500 - 1000 + 500) 1700000000500 .rt = 400 := by decide
 
+/-- **A traced error does not change the accounting**: whether or not an error was attached to the entry (`Entry::set_err`,
+`api::trace_error`), its exit leaves the same node statistics, inbound totals, hotspot in-flight counters and set of open
+entries; only the circuit breakers (and their notifications) see the error. -/
+theorem exit_error_does_not_change_accounting (w : World) (eid : Nat) :
+    (w.exit eid true).map (fun w' => (w'.nodes, w'.inbound, w'.hs, w'.entries)) =
+    (w.exit eid false).map (fun w' => (w'.nodes, w'.inbound, w'.hs, w'.entries)) := by
+  unfold World.exit
+  cases w.entries.find? (fun p => p.1 == eid) with
+  | none => rfl
+  | some p => rfl
+
 end Sentinel
